@@ -5,6 +5,7 @@ package main
 import (
 	"fmt"
 	"go/ast"
+	"go/parser"
 	"go/token"
 	"go/types"
 
@@ -322,7 +323,7 @@ func (c *fnCtx) loopVar(n ast.Node, operand string, idx ast.Expr) bool {
 		case *ast.RangeStmt:
 			k, ok := l.Key.(*ast.Ident)
 			if ok && l.Tok == token.DEFINE && c.info.Defs[k] == obj && n.Pos() >= l.Body.Pos() &&
-				text(l.X) == operand && !c.assigns(l.Body, obj) {
+				(text(l.X) == operand || c.madeWithLenOf(operand, l.X)) && !c.assigns(l.Body, obj) {
 				return true
 			}
 		case *ast.ForStmt:
@@ -331,12 +332,144 @@ func (c *fnCtx) loopVar(n ast.Node, operand string, idx ast.Expr) bool {
 				break
 			}
 			v, ok := unparen(be.X).(*ast.Ident)
-			if ok && c.info.Uses[v] == obj && isLenOf(be.Y, operand) && !c.assigns(l.Body, obj) {
-				return true
+			if ok && c.info.Uses[v] == obj && !c.assigns(l.Body, obj) {
+				if isLenOf(be.Y, operand) {
+					return true
+				}
+				if call, isCall := unparen(be.Y).(*ast.CallExpr); isCall && len(call.Args) == 1 && isLenOf(be.Y, text(call.Args[0])) &&
+					c.madeWithLenOf(operand, call.Args[0]) {
+					return true
+				}
 			}
 		}
 		if par == c.decl {
 			break
+		}
+	}
+	return false
+}
+
+// madeWithLenOf: the slice written `operand` (a local variable `y`, or `v.F` for a local variable v)
+// was created in this function by make([]T, len(X)) — `y := make(…)`, or the field F of the single
+// composite literal that defines v — where X is the (slice / array / string) expression ranged over;
+// neither `operand` nor X is assigned anywhere else in the function.  Then len(operand) == len(X)
+// throughout, and an index below len(X) is in bounds.
+func (c *fnCtx) madeWithLenOf(operand string, ranged ast.Expr) bool {
+	switch coreUnder(c.info.TypeOf(ranged)).(type) {
+	case *types.Slice, *types.Array, *types.Basic:
+	default:
+		return false // a map / channel / function / integer range: the key is not an index below len
+	}
+	x := text(ranged)
+	isMake := func(e ast.Expr) bool {
+		call, ok := unparen(e).(*ast.CallExpr)
+		if !ok || len(call.Args) != 2 {
+			return false
+		}
+		id, ok := unparen(call.Fun).(*ast.Ident)
+		if !ok || id.Name != "make" || c.info.Uses[id] != types.Universe.Lookup("make") {
+			return false
+		}
+		return isLenOf(call.Args[1], x)
+	}
+	// every assignment / definition / address-of in the function whose target is written like `operand` or like X
+	var operandDefs []ast.Expr
+	clean := true
+	ast.Inspect(c.decl, func(n ast.Node) bool {
+		switch s := n.(type) {
+		case *ast.AssignStmt:
+			for i, l := range s.Lhs {
+				switch text(l) {
+				case operand:
+					if len(s.Lhs) == len(s.Rhs) && (s.Tok == token.DEFINE || s.Tok == token.ASSIGN) {
+						operandDefs = append(operandDefs, s.Rhs[i])
+					} else {
+						clean = false
+					}
+				case x:
+					clean = false
+				}
+			}
+		case *ast.ValueSpec:
+			for i, id := range s.Names {
+				if id.Name == operand || id.Name == x {
+					if id.Name == operand && len(s.Values) == len(s.Names) {
+						operandDefs = append(operandDefs, s.Values[i])
+					} else {
+						clean = false
+					}
+				}
+			}
+		case *ast.IncDecStmt:
+			if t := text(s.X); t == operand || t == x {
+				clean = false
+			}
+		case *ast.UnaryExpr:
+			if t := text(s.X); s.Op == token.AND && (t == operand || t == x) {
+				clean = false
+			}
+		case *ast.RangeStmt:
+			for _, kv := range []ast.Expr{s.Key, s.Value} {
+				if kv != nil && (text(kv) == operand || text(kv) == x) {
+					clean = false
+				}
+			}
+		}
+		return clean
+	})
+	if !clean {
+		return false
+	}
+	if len(operandDefs) == 1 {
+		return isMake(operandDefs[0])
+	}
+	if len(operandDefs) != 0 {
+		return false
+	}
+	// v.F with v := T{…, F: make([]E, len(X)), …} (or &T{…}) as the only definition of v
+	sel, ok := func() (*ast.SelectorExpr, bool) {
+		e, err := parser.ParseExpr(operand)
+		if err != nil {
+			return nil, false
+		}
+		s, ok := e.(*ast.SelectorExpr)
+		return s, ok
+	}()
+	if !ok {
+		return false
+	}
+	base, ok := sel.X.(*ast.Ident)
+	if !ok {
+		return false
+	}
+	var baseObj types.Object
+	var baseDefs []ast.Expr
+	for obj, defs := range c.defs {
+		if obj != nil && obj.Name() == base.Name {
+			if baseObj != nil {
+				return false // two local variables of that name: not decided
+			}
+			baseObj, baseDefs = obj, defs
+		}
+	}
+	if baseObj == nil || c.params[baseObj] || len(baseDefs) != 1 {
+		return false
+	}
+	def := unparen(baseDefs[0])
+	if u, ok := def.(*ast.UnaryExpr); ok && u.Op == token.AND {
+		def = unparen(u.X)
+	}
+	lit, ok := def.(*ast.CompositeLit)
+	if !ok {
+		return false
+	}
+	for _, el := range lit.Elts {
+		kv, ok := el.(*ast.KeyValueExpr)
+		if !ok {
+			return false
+		}
+		if k, ok := kv.Key.(*ast.Ident); ok && k.Name == sel.Sel.Name {
+			return isMake(kv.Value)
 		}
 	}
 	return false
